@@ -204,6 +204,12 @@ def program_sources(ctx, rnd, n, layouts=('tight', 'spaced', 'lines', 'comments'
         src = render(b, lay, rnd, crlf=(k % 7 == 3))
         if src:
             out.append(('gen%d/%s' % (k, lay), src))
+    # a few wide programs (hundreds of tokens, dozens of names)
+    for k, b in enumerate(wide_set(ctx, max(4, n // 25))[1]):
+        lay = layouts[k % len(layouts)]
+        src = render(b, lay, rnd, crlf=(k % 3 == 1))
+        if src:
+            out.append(('wide%d/%s' % (k, lay), src))
     return out
 
 
